@@ -1,5 +1,5 @@
 ---- MODULE MC_Spawn ----
 EXTENDS Spawn
 MC_Ends == {<<"exit", 0>>, <<"exit", 1>>, <<"exit", 3>>, <<"exit", 255>>, <<"signal", 9>>, <<"signal", 11>>, <<"signal", 15>>}
-MC_Ends_thorough == MC_Ends \cup {<<"exit", 2>>, <<"exit", 127>>, <<"exit", 128>>, <<"exit", 254>>, <<"signal", 6>>, <<"signal", 2>>, <<"signal", 10>>}
+MC_Ends_thorough == MC_Ends \cup {<<"exit", 2>>, <<"exit", 127>>, <<"exit", 128>>, <<"exit", 254>>, <<"signal", 6>>, <<"signal", 7>>, <<"signal", 10>>}   \* (not SIGINT: Python turns it into KeyboardInterrupt, it does not end the process by itself)
 ====
